@@ -29,6 +29,11 @@ RULE = ("per case: rule set spot|futures, 1-3 subscribed instruments, a manager 
         "admits) stating up to 4 random prices per side, repeats with different amounts included; 50 %: noise before 15/25 % of the updates and 35 % of the noise frames are Binary frames "
         "that do NOT deserialise (`binbad i`: the bytes of one of the 8 bad texts, or bytes that are not UTF-8) - the classic families send Binary frames only with a valid update; 25 % of these cases have depth-limited snapshots "
         "(corpus/C06E/C_domain_edges.ops: hand-written inputs of the same classes). "
+        "On top of these, N/10 cases (ids cfg…, configuration-shape audit) from a fourth independent random stream have 4 / 5 / 7 / 11 / 12 subscribed instruments (symbols that are "
+        "prefixes of one another: SYM1 / SYM10 / SYM11), venues of <= 8 changes and <= 4 updates per instrument and connection, each instrument subscribed-but-silent on a connection "
+        "with probability 1/2, manager cells for n (60 %), n-1, n+1, 0 or 1 keys, 15-35 % noise frames of which the updates for a never-subscribed symbol extend a subscribed one in 70 % "
+        "(SYM3 subscribed, SYM30 / SYM300 not), 25 % depth-limited (corpus/C06E/cfg_many_instruments.ops: 12 instruments with the break on the last and re-initialisation, 11 with "
+        "one cell and the break on a middle one, 5 all silent without any cell). "
         "The corpus holds, besides the fixed vectors of the theorems, depth-limited connections (incl. the witness of the theorems) and REST snapshots listing a price twice. "
         "A case is distinct by the SHA-1 of its op lines and "
         "non-trivial when the implementation's observation blocks differ at least once")
